@@ -9,6 +9,7 @@
 #include <opm/common/utility/Serializer.hpp>
 #include <opm/common/utility/MemPacker.hpp>
 #include <opm/common/utility/TimeService.hpp>
+#include <opm/input/eclipse/Schedule/ScheduleState.hpp>
 
 #include <algorithm>
 #include <array>
@@ -23,6 +24,8 @@
 #include <unordered_set>
 #include <variant>
 #include <vector>
+#include <cstdio>
+#include <sys/mman.h>
 
 namespace sc {
 
@@ -221,6 +224,71 @@ template <class T> struct Codec<std::unique_ptr<T>> {
     }
 };
 
+// ---- shared_ptr -------------------------------------------------------------------------
+// Serializer::shared_ptr writes the ADDRESS of the pointee.  To keep ops.txt reproducible the
+// pointees of generated values live in an arena mapped at a fixed address (bump allocation, reset
+// for every top-level value), so their addresses depend on the seed only.  Objects made by UNPACK
+// (make_shared) have unpredictable addresses: results are rendered with LABELS 1,2,.. in order of
+// first occurrence (pre-order), which shows exactly the aliasing graph.
+struct Arena {
+    static constexpr std::uintptr_t kBase = 0x5e0000000000ull;
+    static constexpr std::size_t kSize = std::size_t(64) << 20;
+    char* base = nullptr; std::size_t used = 0;
+    Arena();
+    void* take(std::size_t n, std::size_t al) {
+        std::size_t at = (used + al - 1) / al * al;
+        if (at + n > kSize) throw std::bad_alloc();
+        used = at + n; return base + at;
+    }
+};
+inline Arena::Arena() {
+    void* p = mmap(reinterpret_cast<void*>(kBase), kSize, PROT_READ | PROT_WRITE, MAP_PRIVATE | MAP_ANONYMOUS | MAP_FIXED_NOREPLACE, -1, 0);
+    if (p == MAP_FAILED || reinterpret_cast<std::uintptr_t>(p) != kBase) {   // fall back: addresses then vary between runs
+        if (p != MAP_FAILED) munmap(p, kSize);
+        p = mmap(nullptr, kSize, PROT_READ | PROT_WRITE, MAP_PRIVATE | MAP_ANONYMOUS, -1, 0);
+        if (p == MAP_FAILED) throw std::bad_alloc();
+    }
+    base = static_cast<char*>(p);
+}
+inline Arena& arena() { static Arena a; return a; }
+template <class T> struct ArenaAlloc {
+    using value_type = T;
+    ArenaAlloc() = default;
+    template <class U> ArenaAlloc(const ArenaAlloc<U>&) {}
+    T* allocate(std::size_t n) { return static_cast<T*>(arena().take(n * sizeof(T), alignof(T) < 16 ? 16 : alignof(T))); }
+    void deallocate(T*, std::size_t) {}
+    template <class U> bool operator==(const ArenaAlloc<U>&) const { return true; }
+    template <class U> bool operator!=(const ArenaAlloc<U>&) const { return false; }
+};
+// pools of live pointees per type (aliasing is drawn from them); all emptied for a new value
+inline std::vector<void (*)()>& poolClearers() { static std::vector<void (*)()> v; return v; }
+inline void newGraphEpoch() { for (auto f : poolClearers()) f(); arena().used = 0; }
+struct Labels { std::map<const void*, int> of; int get(const void* p) { auto it = of.find(p); if (it != of.end()) return it->second; int l = static_cast<int>(of.size()) + 1; of[p] = l; return l; } };
+inline Labels& labels() { static Labels l; return l; }
+
+template <class T> struct Codec<std::shared_ptr<T>> {
+    static std::vector<std::shared_ptr<T>>& pool() {
+        static std::vector<std::shared_ptr<T>> p;
+        static bool reg = (poolClearers().push_back([] { Codec<std::shared_ptr<T>>::pool().clear(); }), true);
+        (void)reg; return p;
+    }
+    static std::string ty() { return "P(" + Codec<T>::ty() + ")"; }
+    static std::shared_ptr<T> gen(vh::Rng& r, const GenCfg& c) {
+        if (r.coin(1, 4)) return nullptr;
+        if (!pool().empty() && r.coin(2, 5)) { auto& p = pool(); return p[r.below(p.size())]; }   // a second owner
+        T val = Codec<T>::gen(r, c);                       // the pointee first: no cycles
+        auto sp = std::allocate_shared<T>(ArenaAlloc<T>{}, std::move(val));
+        pool().push_back(sp);
+        return sp;
+    }
+    static std::string show(const std::shared_ptr<T>& v, bool canon) {
+        if (!v) return "n";
+        if (canon) { const int l = labels().get(v.get()); return "&" + std::to_string(l) + "(" + Codec<T>::show(*v, canon) + ")"; }
+        char b[32]; std::snprintf(b, sizeof b, "%llx", static_cast<unsigned long long>(reinterpret_cast<std::uintptr_t>(v.get())));
+        return "&" + std::string(b) + "(" + Codec<T>::show(*v, canon) + ")";
+    }
+};
+
 // ---- pair / tuple / variant ------------------------------------------------------------
 template <class A, class B> struct Codec<std::pair<A, B>> {
     static std::string ty() { return "t(" + Codec<A>::ty() + "," + Codec<B>::ty() + ")"; }
@@ -228,7 +296,9 @@ template <class A, class B> struct Codec<std::pair<A, B>> {
         A a = Codec<A>::gen(r, c); B b = Codec<B>::gen(r, c); return std::pair<A, B>(std::move(a), std::move(b));
     }
     static std::string show(const std::pair<A, B>& v, bool canon) {
-        return "[" + Codec<A>::show(v.first, canon) + "," + Codec<B>::show(v.second, canon) + "]";
+        const std::string a = Codec<A>::show(v.first, canon);      // sequenced: rendering assigns pointer labels
+        const std::string b = Codec<B>::show(v.second, canon);
+        return "[" + a + "," + b + "]";
     }
 };
 template <class... Ts> struct Codec<std::tuple<Ts...>> {
@@ -305,10 +375,14 @@ template <class K, class V> struct Codec<std::unordered_map<K, V>> {
         for (size_t i = 0; i < n; ++i) { K k = Codec<K>::gen(r, c); m.emplace(std::move(k), Codec<V>::gen(r, d)); }
         return m;
     }
+    // canon: entries in the order of their KEY text (keys are unique, so this is the order of the entry
+    // texts too); the values are rendered in that order because rendering assigns pointer labels
     static std::string show(const M& v, bool canon) {
+        std::vector<std::pair<std::string, const V*>> ks;
+        for (const auto& e : v) ks.emplace_back(Codec<K>::show(e.first, canon), &e.second);
+        if (canon) std::sort(ks.begin(), ks.end(), [](const auto& a, const auto& b) { return a.first < b.first; });
         std::vector<std::string> xs;
-        for (const auto& e : v) xs.push_back("[" + Codec<K>::show(e.first, canon) + "," + Codec<V>::show(e.second, canon) + "]");
-        if (canon) std::sort(xs.begin(), xs.end());
+        for (const auto& e : ks) xs.push_back("[" + e.first + "," + Codec<V>::show(*e.second, canon) + "]");
         return joinList(xs);
     }
 };
@@ -367,6 +441,168 @@ template <> struct Codec<Outer> {
                           Codec<std::variant<int, std::string, Rec>>::show(v.what, canon),
                           Codec<std::unordered_map<std::string, double>>::show(v.values, canon),
                           Codec<std::set<std::pair<int, int>>>::show(v.cells, canon) });
+    }
+};
+
+// a class whose DEFAULT constructor leaves engaged optionals and a non-empty vector behind (like
+// Opm::SICD::m_scaling_factor{1.0}): UNPACK into a default-constructed object must still reset them
+struct Preset {
+    std::optional<int> limit{42};
+    std::optional<std::string> tag{std::string("dflt")};
+    std::vector<std::optional<double>> xs{1.0, std::nullopt};
+    int n = 3;
+    template <class S> void serializeOp(S& s) { s(limit); s(tag); s(xs); s(n); }
+};
+template <> struct Codec<Preset> {
+    using A = std::optional<int>; using B = std::optional<std::string>; using C = std::vector<std::optional<double>>;
+    static std::string ty() { return "c(" + Codec<A>::ty() + "," + Codec<B>::ty() + "," + Codec<C>::ty() + ",i4)"; }
+    static Preset gen(vh::Rng& r, const GenCfg& c) {
+        Preset x; x.limit = Codec<A>::gen(r, c); x.tag = Codec<B>::gen(r, c); x.xs = Codec<C>::gen(r, c); x.n = Codec<int>::gen(r, c); return x;
+    }
+    static std::string show(const Preset& v, bool canon) {
+        return joinList({ Codec<A>::show(v.limit, canon), Codec<B>::show(v.tag, canon), Codec<C>::show(v.xs, canon), Codec<int>::show(v.n, canon) });
+    }
+};
+
+// ---- classes holding shared_ptr, shaped like Well / ScheduleState ---------------------------------
+struct WellLike {
+    int id = 0;
+    std::shared_ptr<double> limit;
+    std::shared_ptr<Rec> conns;
+    template <class S> void serializeOp(S& s) { s(id); s(limit); s(conns); }
+};
+template <> struct Codec<WellLike> {
+    static std::string ty() { return "c(i4," + Codec<std::shared_ptr<double>>::ty() + "," + Codec<std::shared_ptr<Rec>>::ty() + ")"; }
+    static WellLike gen(vh::Rng& r, const GenCfg& c) {
+        WellLike w; w.id = Codec<int>::gen(r, c); w.limit = Codec<std::shared_ptr<double>>::gen(r, c);
+        w.conns = Codec<std::shared_ptr<Rec>>::gen(r, c); return w;
+    }
+    static std::string show(const WellLike& v, bool canon) {
+        const std::string a = Codec<int>::show(v.id, canon);
+        const std::string b = Codec<std::shared_ptr<double>>::show(v.limit, canon);
+        const std::string c = Codec<std::shared_ptr<Rec>>::show(v.conns, canon);
+        return joinList({ a, b, c });
+    }
+};
+struct StepLike {
+    std::shared_ptr<std::string> title;                                   // ptr_member<T>
+    std::unordered_map<std::string, std::shared_ptr<WellLike>> wells;     // map_member<K,T>
+    std::vector<std::shared_ptr<WellLike>> order;
+    std::optional<std::shared_ptr<Rec>> extra;
+    std::map<int, std::shared_ptr<Rec>> byId;
+    template <class S> void serializeOp(S& s) { s(title); s(wells); s(order); s(extra); s(byId); }
+};
+template <> struct Codec<StepLike> {
+    using A = std::shared_ptr<std::string>; using B = std::unordered_map<std::string, std::shared_ptr<WellLike>>;
+    using C = std::vector<std::shared_ptr<WellLike>>; using D = std::optional<std::shared_ptr<Rec>>; using E = std::map<int, std::shared_ptr<Rec>>;
+    static std::string ty() { return "c(" + Codec<A>::ty() + "," + Codec<B>::ty() + "," + Codec<C>::ty() + "," + Codec<D>::ty() + "," + Codec<E>::ty() + ")"; }
+    static StepLike gen(vh::Rng& r, const GenCfg& c) {
+        StepLike x; x.title = Codec<A>::gen(r, c); x.wells = Codec<B>::gen(r, c); x.order = Codec<C>::gen(r, c);
+        x.extra = Codec<D>::gen(r, c); x.byId = Codec<E>::gen(r, c); return x;
+    }
+    static std::string show(const StepLike& v, bool canon) {     // one member after the other: labels follow the traversal
+        const std::string a = Codec<A>::show(v.title, canon);
+        const std::string b = Codec<B>::show(v.wells, canon);
+        const std::string c = Codec<C>::show(v.order, canon);
+        const std::string d = Codec<D>::show(v.extra, canon);
+        const std::string e = Codec<E>::show(v.byId, canon);
+        return joinList({ a, b, c, d, e });
+    }
+};
+
+// ---- the REAL wrappers of ScheduleState: ptr_member<T> = class{shared_ptr<T>}, map_member<K,T> =
+//      class{unordered_map<K, shared_ptr<T>>}; pointees are made by make_shared inside the wrappers, so
+//      their addresses (printed raw in serial.gpack lines) vary from run to run ---------------------------
+struct NamedRec {
+    std::string nm; int v = 0; std::shared_ptr<double> lim;
+    const std::string& name() const { return nm; }
+    template <class S> void serializeOp(S& s) { s(nm); s(v); s(lim); }
+};
+template <> struct Codec<NamedRec> {
+    static std::string ty() { return "c(s,i4," + Codec<std::shared_ptr<double>>::ty() + ")"; }
+    static NamedRec gen(vh::Rng& r, const GenCfg& c) {
+        NamedRec x; x.nm = "W" + std::to_string(r.below(6)); x.v = Codec<int>::gen(r, c); x.lim = Codec<std::shared_ptr<double>>::gen(r, c); return x;
+    }
+    static std::string show(const NamedRec& v, bool canon) {
+        const std::string a = Codec<std::string>::show(v.nm, canon), b = Codec<int>::show(v.v, canon);
+        const std::string c = Codec<std::shared_ptr<double>>::show(v.lim, canon);
+        return joinList({ a, b, c });
+    }
+};
+inline std::string showPtr(const void* p, bool canon) {
+    if (canon) return "&" + std::to_string(labels().get(p));
+    char b[32]; std::snprintf(b, sizeof b, "%llx", static_cast<unsigned long long>(reinterpret_cast<std::uintptr_t>(p)));
+    return "&" + std::string(b);
+}
+template <class T> struct Codec<Opm::ScheduleState::ptr_member<T>> {
+    using PM = Opm::ScheduleState::ptr_member<T>;
+    static std::vector<PM>& pool() {
+        static std::vector<PM> p;
+        static bool reg = (poolClearers().push_back([] { Codec<PM>::pool().clear(); }), true);
+        (void)reg; return p;
+    }
+    static std::string ty() { return "c(P(" + Codec<T>::ty() + "))"; }
+    static PM gen(vh::Rng& r, const GenCfg& c) {       // never null: get() of an unset ptr_member is not defined
+        PM pm;
+        if (!pool().empty() && r.coin(1, 2)) pm.update(pool()[r.below(pool().size())]);   // "unchanged since an earlier step"
+        else pm.update(Codec<T>::gen(r, c));
+        pool().push_back(pm);
+        return pm;
+    }
+    static std::string show(const PM& v, bool canon) {
+        const std::string a = showPtr(&v.get(), canon);
+        return "[" + a + "(" + Codec<T>::show(v.get(), canon) + ")]";
+    }
+};
+template <class T> struct Codec<Opm::ScheduleState::map_member<std::string, T>> {
+    using MM = Opm::ScheduleState::map_member<std::string, T>;
+    static std::vector<MM>& pool() {
+        static std::vector<MM> p;
+        static bool reg = (poolClearers().push_back([] { Codec<MM>::pool().clear(); }), true);
+        (void)reg; return p;
+    }
+    static std::string ty() { return "c(N(s,P(" + Codec<T>::ty() + ")))"; }
+    static MM gen(vh::Rng& r, const GenCfg& c) {
+        MM m;
+        if (!pool().empty() && r.coin(2, 3)) m = pool()[r.below(pool().size())];            // the previous step's map: all shared
+        const size_t n = genLen(r, c);
+        for (size_t i = 0; i < n; ++i) {
+            if (!pool().empty() && r.coin(1, 3)) {
+                const MM& o = pool()[r.below(pool().size())];
+                const auto ks = o.keys();
+                if (!ks.empty()) { m.update(ks[r.below(ks.size())], o); continue; }
+            }
+            m.update(Codec<T>::gen(r, c));
+        }
+        pool().push_back(m);
+        return m;
+    }
+    static std::string show(const MM& v, bool canon) {
+        std::vector<std::pair<std::string, const std::shared_ptr<T>*>> ks;
+        for (auto it = v.begin(); it != v.end(); ++it) ks.emplace_back(Codec<std::string>::show(it->first, canon), &it->second);
+        if (canon) std::sort(ks.begin(), ks.end(), [](const auto& a, const auto& b) { return a.first < b.first; });
+        std::vector<std::string> xs;
+        for (const auto& e : ks) {
+            const std::string a = showPtr(e.second->get(), canon);
+            xs.push_back("[" + e.first + "," + a + "(" + Codec<T>::show(**e.second, canon) + ")]");
+        }
+        return "[" + joinList(xs) + "]";
+    }
+};
+// one "report step" made of the real wrappers
+struct RealStep {
+    Opm::ScheduleState::ptr_member<Rec> tuning;
+    Opm::ScheduleState::map_member<std::string, NamedRec> wells;
+    Opm::ScheduleState::ptr_member<NamedRec> field;
+    template <class S> void serializeOp(S& s) { s(tuning); s(wells); s(field); }
+};
+template <> struct Codec<RealStep> {
+    using A = Opm::ScheduleState::ptr_member<Rec>; using B = Opm::ScheduleState::map_member<std::string, NamedRec>; using C = Opm::ScheduleState::ptr_member<NamedRec>;
+    static std::string ty() { return "c(" + Codec<A>::ty() + "," + Codec<B>::ty() + "," + Codec<C>::ty() + ")"; }
+    static RealStep gen(vh::Rng& r, const GenCfg& c) { RealStep x; x.tuning = Codec<A>::gen(r, c); x.wells = Codec<B>::gen(r, c); x.field = Codec<C>::gen(r, c); return x; }
+    static std::string show(const RealStep& v, bool canon) {
+        const std::string a = Codec<A>::show(v.tuning, canon), b = Codec<B>::show(v.wells, canon), c = Codec<C>::show(v.field, canon);
+        return joinList({ a, b, c });
     }
 };
 
